@@ -35,6 +35,11 @@ type Op struct {
 	// cannot be encoded for its element; the add must be refused and leave the set as it was.
 	Bad    string `json:"bad,omitempty"`
 	BadPos int    `json:"bad_pos,omitempty"`
+	// Spare: extra capacity of the element slice handed to the add call
+	Spare int `json:"spare,omitempty"`
+	// FixedStr > 0: the element list additionally holds, at that position, a string element declared
+	// with a fixed length; the record's bytes are then not compared with the reference encoding
+	FixedStr int `json:"fixed_str,omitempty"`
 }
 
 type Case struct {
@@ -69,6 +74,11 @@ func elements(o Op, tpl bool) []entities.InfoElementWithValue {
 			els[i] = glue.Element(glue.IE(f), f.Type, o.Vals[i])
 		}
 	}
+	if o.FixedStr > 0 && !tpl {
+		p := (o.FixedStr - 1) % (len(els) + 1)
+		fs := glue.Element(glue.IE(glue.FixedString), ref.TString, ref.Value{B: []byte("sixteen-byte-str")[:8+o.FixedStr%9]})
+		els = append(els[:p:p], append([]entities.InfoElementWithValue{fs}, els[p:]...)...)
+	}
 	return els
 }
 
@@ -91,13 +101,24 @@ func add(set entities.Set, o Op, tpl bool, id uint16, path int) error {
 		p := o.BadPos % (len(els) + 1)
 		els = append(els[:p:p], append([]entities.InfoElementWithValue{badElement(o.Bad)}, els[p:]...)...)
 	}
+	if o.Spare > 0 { // the caller's slice has spare capacity (built with append / make(0, n))
+		els = append(make([]entities.InfoElementWithValue, 0, len(els)+o.Spare), els...)
+	}
+	var err error
 	switch path {
 	case exph.PathExtra:
-		return set.AddRecordWithExtraElements(els, o.Extra, id)
+		err = set.AddRecordWithExtraElements(els, o.Extra, id)
 	case exph.PathV2:
 		return set.AddRecordV2(els, id)
+	default:
+		err = set.AddRecord(els, id)
 	}
-	return set.AddRecord(els, id)
+	// the copying paths leave the caller free to refill its slice: do so
+	poison := glue.Element(glue.IE(glue.UserField(ref.TU64)), ref.TU64, ref.Value{U: 0xDEADBEEFDEADBEEF})
+	for i := range els {
+		els[i] = poison
+	}
+	return err
 }
 
 // state of the model since the last reset
@@ -168,6 +189,11 @@ func play(c Case, forcePath int, st *Stats) ([]byte, *ev.Failure) {
 			}
 			if m.tpl {
 				m.recs = append(m.recs, ref.EncodeTemplateRecord(nil, ref.Template{ID: m.id, Fields: o.Fields}))
+			} else if o.FixedStr > 0 {
+				// not comparable with the reference encoding: take the record as serialized now; it must
+				// stay that way, and be the same through every add path and in a fresh set
+				recs := set.GetRecords()
+				m.recs = append(m.recs, append([]byte(nil), recs[len(recs)-1].GetBuffer()...))
 			} else {
 				m.recs = append(m.recs, ref.EncodeDataRecord(nil, o.Fields, o.Vals))
 			}
@@ -337,6 +363,10 @@ func genCase(t *rapid.T) Case {
 			}
 			if !tpl {
 				o.Vals = gen.Record(t, o.Fields, rapid.SampledFrom([]int{20, 300, 300, 66000}).Draw(t, "maxvar"))
+				o.Spare = rapid.SampledFrom([]int{0, 0, 1, 5, 8}).Draw(t, "spare")
+				if rapid.IntRange(0, 9).Draw(t, "fixedstr") == 0 {
+					o.FixedStr = rapid.IntRange(1, 13).Draw(t, "fixedstrpos")
+				}
 				if rapid.IntRange(0, 7).Draw(t, "bad") == 0 {
 					o.Bad = rapid.SampledFrom([]string{"v6_in_ipv4", "mac5", "fixed_short"}).Draw(t, "badkind")
 					o.BadPos = rapid.IntRange(0, 12).Draw(t, "badpos")
